@@ -1,5 +1,5 @@
 /- Line-protocol driver: one op per input line, one canonical result line out. Core Lean only. -/
-import GluonModel.Driver.Registry
+import GluonModel.Generated.Registry
 
 partial def loop (h : IO.FS.Stream) (out : IO.FS.Stream) : IO Unit := do
   let line ← h.getLine
